@@ -134,8 +134,10 @@ def enabled(w: World, tier: str) -> list[tuple]:
         elif t.state == TrialState.WAITING:
             ops += [("claim", "A", t._trial_id), ("claim", "B", t._trial_id)]
     ops += [("read", "A", 0), ("read", "A", 1), ("read", "B", 0)]
-    if tier == "thorough" or True:
-        ops += [("recreate", "R", 0)]
+    ops += [("recreate", "R", 0)]
+    # the cached client deletes and re-creates the study itself: its own delete must leave no cache
+    # entry behind (SQLite re-issues the ids)
+    ops += [("recreate", "A", 0)]
     return ops
 
 
@@ -165,6 +167,8 @@ def apply(w: World, op: tuple) -> None:
         old = w.sids[0]
         c.delete_study(old)
         w.dead_sids.append(old)
+        if who != "A":
+            w.foreign_delete = True
         w.sids[0] = c.create_new_study([MAX], "S1b")
     else:
         raise ValueError(op)
@@ -196,11 +200,12 @@ def compare(w: World, part: Part, hist: list, config: str) -> bool:
     R = w.R
     ok = True
     recreated = bool(w.dead_sids)
+    foreign = getattr(w, "foreign_delete", False)
 
     def fail(clause: str, detail: Any) -> None:
         nonlocal ok
         ok = False
-        cls = "after-foreign-delete+recreate" if recreated else "plain"
+        cls = ("after-foreign-delete+recreate" if foreign else "after-own-delete+recreate") if recreated else "plain"
         last = hist[-1]
         part.violation(f"{config}|{cls}|{clause}|last={last[0]}:{last[1]}",
                        {"config": config, "history": hist, "clause": clause, "detail": detail})
